@@ -474,6 +474,33 @@ def run(ck):
         fl.append([x, rng.choice([0, 1, 2, 5, 10, x // TICKS, x // TICKS + 1])])
     ck.stream("float-and-%.3f", fl, "C10_float", "C10_float", None, nontrivial=lambda c: c[0] % 90 == 45 or c[0] % TICKS < 2,
               sig=lambda c, e, o: "hls-float", sample=2)
+    # 3b. disk mode, several streams in one directory: the segment files are <murmur32(path)>_<n>.ts.  The murmur model
+    #     against utils/murmur.OfString on every length class (0..3 tail bytes, 0..70 blocks), and two real generators
+    #     over ONE directory whose paths share long prefixes: each playlist must resolve to its own stream's segments
+    ms = [b"", b"/", b"/live/a", b"/cam1"]
+    for n in list(range(0, 24)) + [31, 32, 33, 62, 63, 64, 65, 66, 67, 68, 127, 128, 129, 255, 256, 257, 280]:
+        for _ in range(6 if big else 2):
+            ms.append(bytes(rng.randrange(256) for _ in range(n)))
+        ms.append(b"/" + b"a" * n)
+    for _ in range(3000 if big else 200):
+        pre = bytes(rng.choice(b"/abcxyz019_-") for _ in range(rng.choice([3, 8, 60, 63, 64, 65, 100, 200])))
+        ms.append(b"/" + pre + wild_bytes(rng, 0, 9))
+    ck.stream("murmur", ms, "C10_murmur", "C10_murmur", None, nontrivial=lambda c: len(c) >= 4,
+              sig=lambda c, e, o: "hls-file-name-hash", sample=2)
+    tw = []
+    for _ in range(200 if big else 24):
+        pre = b"/" + bytes(rng.choice(b"/abcxyz019_-") for _ in range(rng.choice([2, 6, 30, 63, 64, 65, 66, 90, 128, 200])))
+        r = rng.random()
+        if r < 0.5:       # same length, differ in the last byte(s)
+            ta, tb = rng.sample([b"1", b"2", b"a", b"b", b"10", b"11", b"cam1", b"cam2"], 2)
+        elif r < 0.8:     # one is a prefix of the other
+            ta, tb = b"", rng.choice([b"1", b"/x", b"abcd"])
+        else:             # differ in the middle, same tail
+            ta, tb = b"A/tail/of/some/length", b"B/tail/of/some/length"
+        tw.append([pre + ta, pre + tb, rng.choice([2, 3, 4])])
+    ck.stream("two-streams-one-directory", tw, "C10_two_run", "C10_two", "C10_two_ok",
+              nontrivial=lambda c: len(c[0]) > 64 and len(c[1]) > 64 and c[0][:64] == c[1][:64],
+              sig=lambda c, e, o: "hls-disk-streams-share-files")
     # 4. D35 replayed on the implementation with the unguarded oracle (known finding)
     wit = [long_gop_witness(True), long_gop_witness(False)]
     ck.stream("long-gop-witness", wit, "C10_run", "C10", "C10_strict", nontrivial=lambda c: True,
@@ -491,6 +518,9 @@ def run(ck):
              "oracle of C10_model_passes; non-trivial = at least 8 frames spanning >= 4 fragments with >= 4 key frames or audio; plus the explicit "
              "generations of one stream over one storage directory (earlier ones with longer segments, closed or abandoned anywhere, plus leftover "
              "files of arbitrary content under the same names); fetch / 1..6 rollovers / read schedule, the float64 and %.3f reformulations on boundary, tie and random values, the D35 witness, "
+             "the murmur32 model of the disk-mode file-name hash against utils/murmur.OfString on byte strings of 0..280 bytes (every tail length, "
+             "shared prefixes of 3..200 bytes), two real disk-mode generators over one directory with paths sharing prefixes of 2..200 bytes "
+             "(each playlist must resolve to segments holding only its own stream's frames; oracle of C10_two_streams_model_passes), "
              "and schedules of one writer and several fetchers (lookup, frames across 1..3 rollovers, copy; fetch of the newest number while the writer "
              "stands at hls.segment.listed; back-to-back; random) replayed on the "
              "real RW lock with the schedule controller: fetch results and the writer-blocked trace judged by the oracle of C10_lts_model_passes",
